@@ -207,10 +207,6 @@ func (s *Store) ObjectAttributes(ctx context.Context, name string) (*dstore.Obje
 }
 
 func (s *Store) WriteObject(ctx context.Context, name string, f io.Reader) error {
-	data, rerr := io.ReadAll(f)
-	if rerr != nil {
-		return rerr
-	}
 	k := s.key(name)
 	s.disk.mu.Lock()
 	s.disk.issued[k]++
@@ -226,6 +222,12 @@ func (s *Store) WriteObject(ctx context.Context, name string, f io.Reader) error
 	}
 	if d.Fault == "io_err_write" || d.Fault == "disk_full" {
 		return errTransient
+	}
+	// the body is consumed when the upload happens, not when it is issued (an object store streams it):
+	// a caller that hands over a buffer it modifies afterwards corrupts the object
+	data, rerr := io.ReadAll(f)
+	if rerr != nil {
+		return rerr
 	}
 	s.disk.mu.Lock()
 	_, exists := s.disk.objs[k]
